@@ -340,7 +340,9 @@ func TestDecoratedItems(t *testing.T) {
 			}
 		}
 	}
-	rec.LabelN("decor:combinations-enumerated", idx)
+	if rec.Shard() == 0 {
+		rec.LabelN("decor:combinations-enumerated", idx)
+	}
 }
 
 var deliveries = []string{"lines", "buf", "buf16", "interp"}
